@@ -126,24 +126,28 @@ def run_case(case):
             pva.name = tq
         sd = {'Position': 2.0, 'NedVelocity': 0.2, 'BodyVelocity': 0.3}[kind]
 
-        def make(meas_value, times=(tq,)):
+        def make(meas_value, times=(tq,), layout='canonical'):
             cols = {'Position': ['lat', 'lon', 'alt'], 'NedVelocity': ['VN', 'VE', 'VD'],
                     'BodyVelocity': ['VX', 'VY', 'VZ']}[kind]
             df = pd.DataFrame([meas_value] * len(times), index=list(times), columns=cols)
+            if layout == 'shuffled':
+                # a log with the documented columns in another order and a foreign column between them
+                df = df[[cols[2], cols[0], cols[1]]]
+                df.insert(1, 'quality', 7.0)
             if kind == 'Position':
                 return measurements.Position(df, sd, imu_to_antenna_b=lever)
             if kind == 'NedVelocity':
                 return measurements.NedVelocity(df, sd, imu_to_antenna_b=lever)
             return measurements.BodyVelocity(df, sd)
 
-        def z_of(x, offset=(0.0, 0.0, 0.0)):
+        def z_of(x, offset=(0.0, 0.0, 0.0), layout='canonical'):
             pt = true_state(p, x, wa)
             mv = true_measured(kind, pt, lever, rates)
             if kind == 'Position':
                 mv = errstate.step_lla(mv, np.asarray(offset))
             else:
                 mv = mv + np.asarray(offset) * 0.1
-            ret = make(mv).compute_matrices(tq, pva, em)
+            ret = make(mv, layout=layout).compute_matrices(tq, pva, em)
             return ret
 
         ret0 = z_of(np.zeros(n))
@@ -160,6 +164,14 @@ def run_case(case):
             continue
         if (R != sd ** 2 * np.eye(m_exp)).any():
             v('c06-R:' + kind, '%s R is not sd^2 I' % kind)
+        # the data table is identified by its column NAMES: another column order / a foreign column change nothing
+        ret_s = z_of(np.zeros(n), (10.0, -4.0, 3.0), layout='shuffled')
+        ret_c = z_of(np.zeros(n), (10.0, -4.0, 3.0))
+        if ret_s is None or any(np.shape(a_) != np.shape(b_) or (np.asarray(a_, float) != np.asarray(b_, float)).any()
+                                for a_, b_ in zip(ret_s, ret_c)):
+            v('c06-table-layout:' + tagc, '%s: a data table with the documented columns in another order (and a foreign column) '
+              'gives z=%s, the canonical table z=%s' % (kind, None if ret_s is None else np.asarray(ret_s[0]).tolist(),
+                                                         np.asarray(ret_c[0]).tolist()))
         # (i) zero residual at the true state, -offset with an offset
         # second-order geometry of the lever arm: |l|^2 (1 + tan lat) / R
         lnorm = 0.0 if lever is None else float(np.linalg.norm(lever))
